@@ -176,6 +176,7 @@ func (r *c15Rig) httpBackend(l net.Listener) {
 				out := append([]byte(head), rb...)
 				if req.Method == "HEAD" {
 					out = []byte(head)
+					rb = nil
 				}
 				r.mu.Lock()
 				r.httpReplied[client] = append(r.httpReplied[client], c15Seen{Headers: []string{"X-Multi: a", "X-Multi: b", fmt.Sprintf("X-Reply: %d", idx)}, BodySHA: compact(rb)})
